@@ -262,6 +262,7 @@ pub fn aggregate(outs: &[JobOut]) -> Value {
     let mut programs = std::collections::HashSet::new();
     let mut inc_samples: Vec<String> = vec![];
     let mut recompilations = 0usize;
+    let mut objdump_checked = 0usize;
     for o in outs {
         paths += o.paths;
         halted += o.ref_halted;
@@ -272,6 +273,7 @@ pub fn aggregate(outs: &[JobOut]) -> Value {
         dropped += o.dropped_items;
         sub_runs += o.sub_runs;
         recompilations += o.recompilations;
+        objdump_checked += o.objdump_checked;
         sub_trunc += o.sub_truncated;
         compared += o.compared;
         decisions += o.decisions;
@@ -300,6 +302,7 @@ pub fn aggregate(outs: &[JobOut]) -> Value {
         "work_items_dropped_by_path_cap": dropped,
         "subject_runs": sub_runs,
         "recompilations_compared_by_the_monitor": recompilations,
+        "machine_code_functions_cross_checked_against_objdump": objdump_checked,
         "subject_runs_truncated": sub_trunc,
         "event_log_comparisons": compared,
         "open_decisions": decisions,
